@@ -80,6 +80,17 @@ def replay(chk: Check, cases, tier):
                     want_area.append(x["area2"] * s * s / 2.0 if x["closed"] else None)
                     if x["sqlens"] and x["area2"] != 0:
                         chk.nontrivial_n += 1
+            if n >= 3 and (nb + len(subtype)) % 4 == 0:
+                # element-wise measures on a large array = the tiled measures of the small one (size thresholds, chunked kernels)
+                big, bpos = M.tiled(arr)
+                chk.count(2 * len(big))
+                for what_, f_ in (("length", lambda a: a.length), ("area", lambda a: a.area)):
+                    if not M.same_array(np.asarray(f_(big), dtype="float64"), np.asarray(f_(arr), dtype="float64")[bpos]):
+                        fail(chk, kind, f"tiled to {len(big)} elements", subtype, aff, desc, f"{what_} of the large array vs the tiled {what_} of the small one", "differs", "equal", "tiled")
+                if kind in ("polygon", "multipolygon"):
+                    bl = np.asarray(big.boundary.length, dtype="float64")
+                    if not M.same_array(bl, np.asarray(arr.boundary.length, dtype="float64")[bpos]):
+                        fail(chk, kind, f"tiled to {len(big)} elements", subtype, aff, desc, "boundary.length of the large array", "differs", "equal", "tiled")
             for name, darr, pos in M.derivations(arr, n, rng):
                 if name.startswith("take_fill") and kind in ("point", "multipoint"):
                     pass
